@@ -159,12 +159,19 @@ def ptm3 (key : Vec → Rat) (bins : List Bin) (parts : Option Nat) : List Part 
 /-- rows of a flattened `(nf, nd)` array -/
 def rowsOf (nf nd : Nat) (v : Vec) : Mat := (List.range nf).map fun i => (v.drop (i * nd)).take nd
 
-/-- `E` of `npstats.hs`: `abs(dir[1]-dir[0]) * spectrum.sum(1)` when there are at least two directions,
-    else `np.squeeze(spectrum)` -/
+/-- `ddir` of `npstats.hs`: `abs(dir[1]-dir[0])` taken the short way round the circle (`min(ddir, 360 - ddir)`) -/
+def npDdir (a b : Rat) : Rat := minR (absR (b - a)) (360 - absR (b - a))
+
+/-- `E` of `npstats.hs`: `ddir * spectrum.sum(1)` when there are at least two directions, else `np.squeeze(spectrum)` -/
 def npHsRow (nf : Nat) (dirs : Vec) (v : Vec) : Vec :=
   match dirs with
-  | a :: b :: _ => (rowsOf nf dirs.length v).map fun r => absR (b - a) * r.sum
+  | a :: b :: _ => (rowsOf nf dirs.length v).map fun r => npDdir a b * r.sum
   | _ => v
+
+/-- the first two stored directions are at most a full circle apart (true of any directions in [0, 360]) -/
+def DirsOk : Vec → Prop
+  | a :: b :: _ => absR (b - a) ≤ 360
+  | _ => True
 
 /-- radicand `Etot` of `npstats.hs(part, freq, dir)` (tail fitted, as the default) for a flattened partition -/
 def npHsKey (f dirs : Vec) (v : Vec) : Rat :=
